@@ -192,6 +192,32 @@ Proof.
   rewrite H. destruct (Z.min_spec b a) as [[_ E]|[_ E]]; rewrite E; [left|right; left]; reflexivity.
 Qed.
 
+Lemma sub_ns_nonpos : forall t u, t <= u -> sub_ns t u <= 0.
+Proof.
+  intros t u H. unfold sub_ns, ns_per_ms, max_dur, min_dur, two63.
+  repeat match goal with |- context [?a >? ?b] => destruct (Z.gtb_spec a b) end;
+  repeat match goal with |- context [?a <? ?b] => destruct (Z.ltb_spec a b) end; lia.
+Qed.
+
+Lemma sub_ns_le_day : forall t u, t - max_interval_ms < u -> sub_ns t u <= max_interval_ns.
+Proof.
+  intros t u H. unfold sub_ns, ns_per_ms, max_dur, min_dur, two63, max_interval_ns, ns_per_s.
+  unfold max_interval_ms in H.
+  repeat match goal with |- context [?a >? ?b] => destruct (Z.gtb_spec a b) end;
+  repeat match goal with |- context [?a <? ?b] => destruct (Z.ltb_spec a b) end; lia.
+Qed.
+
+Lemma sub_ns_pos_lt : forall t u, 0 < sub_ns t u -> u < t.
+Proof.
+  intros t u H. destruct (Z_lt_le_dec u t); auto. pose proof (sub_ns_nonpos t u l). lia.
+Qed.
+
+Lemma sub_ns_gt_day : forall t u, sub_ns t u > max_interval_ns -> u <= t - max_interval_ms.
+Proof.
+  intros t u H. destruct (Z_le_gt_dec u (t - max_interval_ms)); auto.
+  pose proof (sub_ns_le_day t u ltac:(lia)). lia.
+Qed.
+
 (* InitEmptyDistribution produces a well-formed one-minute distribution whose ends are int64 ms *)
 Lemma init_wf : forall i d, is_u64 (i_from i) -> is_u64 (i_creation i) ->
   init_empty_distribution i = Some d ->
@@ -199,30 +225,17 @@ Lemma init_wf : forall i d, is_u64 (i_from i) -> is_u64 (i_creation i) ->
 Proof.
   intros i d Hf Hc H. unfold init_empty_distribution in H.
   pose proof (to_i64_range _ Hf) as Rf. pose proof (to_i64_range _ Hc) as Rc.
-  set (from := to_i64 (i_from i)) in *. set (ct := to_i64 (i_creation i)) in *.
-  destruct (Z.ltb_spec (sub_ns ct from) spread_threshold_ns) as [|Hge]; [discriminate|].
-  assert (Hlt : from < ct).
-  { destruct (Z_lt_le_dec from ct); auto. exfalso.
-    assert (sub_ns ct from <= sub_ns from from) by (apply sub_ns_mono; lia).
-    rewrite (sub_ns_exact from from) in H0 by (unfold min_dur, max_dur, two63, ns_per_ms; lia).
-    unfold spread_threshold_ns, ns_per_s in Hge. lia. }
-  inversion H; subst d; clear H.
-  assert (Hd : (if sub_ns ct from >? max_interval_ns then ct - max_interval_ms else from) <= ct
-               /\ - two63 <= (if sub_ns ct from >? max_interval_ns then ct - max_interval_ms else from) < two63).
-  { destruct (Z.gtb_spec (sub_ns ct from) max_interval_ns) as [G|G].
-    - unfold max_interval_ms. split; [lia|]. split; [|lia].
-      (* ct - 24h >= from: otherwise the span would be below 24 h *)
-      destruct (Z_le_gt_dec from (ct - 86400000)); [lia|]. exfalso.
-      assert (sub_ns ct from <= sub_ns ct (ct - 86400000)).
-      { unfold sub_ns, ns_per_ms, max_dur, min_dur, two63 in *.
-        repeat match goal with |- context [?a >? ?b] => destruct (Z.gtb_spec a b) end;
-        repeat match goal with |- context [?a <? ?b] => destruct (Z.ltb_spec a b) end; lia. }
-      rewrite (sub_ns_exact ct (ct - 86400000)) in H by (unfold min_dur, max_dur, two63, ns_per_ms; lia).
-      unfold max_interval_ns, ns_per_s, ns_per_ms in *. lia.
-    - lia. }
-  destruct Hd as [Hd1 Hd2].
-  split; [apply dist_new_wf; [exact Hd1|unfold bucket_ns, ns_per_s; lia]|].
-  split; [reflexivity|]. split; [exact Hd2|]. exact Rc.
+  destruct (Z.ltb_spec (sub_ns (to_i64 (i_creation i)) (to_i64 (i_from i))) spread_threshold_ns) as [|Hge];
+    [discriminate|].
+  assert (Hlt : to_i64 (i_from i) < to_i64 (i_creation i)).
+  { apply sub_ns_pos_lt. unfold spread_threshold_ns, ns_per_s in Hge. lia. }
+  destruct (Z.gtb_spec (sub_ns (to_i64 (i_creation i)) (to_i64 (i_from i))) max_interval_ns) as [G|G].
+  - apply Z.lt_gt in G. apply sub_ns_gt_day in G. injection H as <-.
+    split; [apply dist_new_wf; [unfold max_interval_ms; lia|unfold bucket_ns, ns_per_s; lia]|].
+    split; [reflexivity|]. cbn [d_from d_to dist_new]. unfold max_interval_ms in *. lia.
+  - injection H as <-.
+    split; [apply dist_new_wf; [lia|unfold bucket_ns, ns_per_s; lia]|].
+    split; [reflexivity|]. cbn [d_from d_to dist_new]. lia.
 Qed.
 
 Definition docs_ok (docs : list Z) : Prop := forall x, In x docs -> 0 <= x < two63.
@@ -243,6 +256,16 @@ Qed.
 Lemma active_info_total : forall creation docs m, In m docs -> i_docs_total (active_info creation docs) <> 0.
 Proof. intros. simpl. destruct docs; [destruct H|]. simpl length. lia. Qed.
 
+Lemma info_isect_borders : forall i m qf qt,
+  i_docs_total i <> 0 -> i_from i <= m <= i_to i -> qf <= m <= qt ->
+  info_is_intersecting i qf qt =
+  match i_dist i with None => true | Some d => dist_is_intersecting d qf qt end.
+Proof.
+  intros i m qf qt Ht Hb Hq. unfold info_is_intersecting.
+  destruct (Z.eqb_spec (i_docs_total i) 0); [contradiction|].
+  destruct (Z.ltb_spec qt (i_from i)); [lia|]. destruct (Z.ltb_spec (i_to i) qf); [lia|]. reflexivity.
+Qed.
+
 (* BuildDistribution over any ID list that contains the documents: intersecting for every query
    interval that contains a document, and the Info survives Save / Load unchanged *)
 Lemma build_sound : forall creation docs ids m qf qt,
@@ -262,20 +285,15 @@ Proof.
     destruct (fold_add_wf ids d W) as [W' [[S1 [S2 [S3 S4]]] _]].
     set (d' := fold_left dist_add ids d) in *.
     split.
-    + unfold info_is_intersecting. simpl.
-      destruct (Z.eqb_spec (i_docs_total a) 0); [contradiction|].
-      destruct (Z.ltb_spec qt (i_from a)); [lia|]. destruct (Z.ltb_spec (i_to a) qf); [lia|]. simpl.
+    + rewrite (info_isect_borders _ m) by (simpl; auto; lia). simpl.
       apply (dist_intersect_sound d ids m qf qt W Hmi H0 H1 H2 H3).
     + unfold info_roundtrip. simpl.
       destruct (dist_json_roundtrip d' 60 W' ltac:(lia) ltac:(rewrite S3; exact Hb)
                   ltac:(rewrite S1; exact Rf) ltac:(rewrite S2; exact Rt)) as [j [J1 J2]].
-      rewrite J1, J2. reflexivity.
+      fold d'. rewrite J1, J2. reflexivity.
   - split.
-    + unfold info_is_intersecting.
-      destruct (Z.eqb_spec (i_docs_total a) 0); [contradiction|].
-      destruct (Z.ltb_spec qt (i_from a)); [lia|]. destruct (Z.ltb_spec (i_to a) qf); [lia|]. simpl.
-      unfold a. reflexivity.
-    + unfold info_roundtrip. unfold a. reflexivity.
+    + rewrite (info_isect_borders _ m) by (auto; lia). reflexivity.
+    + reflexivity.
 Qed.
 
 (* thm:C14_intersect_sound *)
@@ -289,10 +307,7 @@ Proof.
   intros creation docs m qf qt Hc Hdocs Hm H0 H1 H2 H3. split.
   - pose proof (active_info_borders creation docs m Hm) as [B1 B2].
     pose proof (active_info_total creation docs m Hm) as Ht.
-    unfold info_is_intersecting.
-    destruct (Z.eqb_spec (i_docs_total (active_info creation docs)) 0); [contradiction|].
-    destruct (Z.ltb_spec qt (i_from (active_info creation docs))); [lia|].
-    destruct (Z.ltb_spec (i_to (active_info creation docs)) qf); [lia|]. reflexivity.
+    rewrite (info_isect_borders _ m) by (auto; lia). reflexivity.
   - unfold sealed_info.
     apply (build_sound creation docs (stub_mid :: docs) m qf qt); auto. right. exact Hm.
 Qed.
